@@ -102,6 +102,45 @@ theorem fold_perm_invariant {α β : Type} (op : β → α → β)
   | swap x y l => simp only [List.foldl_cons]; rw [comm]
   | trans _ _ ih₁ ih₂ => exact (ih₁ init).trans (ih₂ init)
 
+/-- A loop that only checks its elements (assertions, `unreachable!`, `return None`, `?`): WHETHER it fails does
+    not depend on the iteration order. -/
+theorem firstFailure_ok_perm_invariant {α ε : Type} (check : α → Option ε) {l₁ l₂ : List α} (h : l₁.Perm l₂) :
+    firstFailure check l₁ = .ok () ↔ firstFailure check l₂ = .ok () := by
+  have key : ∀ l : List α, firstFailure check l = .ok () ↔ ∀ a ∈ l, check a = none := by
+    intro l
+    unfold firstFailure
+    cases hf : l.findSome? check with
+    | none => simpa using List.findSome?_eq_none_iff.1 hf
+    | some e =>
+      obtain ⟨a, ha, hc⟩ := List.exists_of_findSome?_eq_some hf
+      simp only [reduceCtorEq, false_iff]
+      intro H
+      have := H a ha
+      simp [hc] at this
+  rw [key, key]
+  exact ⟨fun H a ha => H a (h.mem_iff.2 ha), fun H a ha => H a (h.mem_iff.1 ha)⟩
+
+/-- ... and WHAT it reports does not either when every failing element reports the same payload (a constant
+    panic message, a constant `None`).  This is the reading behind the `effects` notes of `classified`. -/
+theorem firstFailure_perm_invariant {α ε : Type} (check : α → Option ε) {l₁ l₂ : List α} (h : l₁.Perm l₂)
+    (same : ∀ a ∈ l₁, ∀ b ∈ l₁, ∀ e₁ e₂, check a = some e₁ → check b = some e₂ → e₁ = e₂) :
+    firstFailure check l₁ = firstFailure check l₂ := by
+  unfold firstFailure
+  cases h1 : l₁.findSome? check with
+  | none =>
+    have hn : ∀ a ∈ l₂, check a = none := fun a ha => List.findSome?_eq_none_iff.1 h1 a (h.mem_iff.2 ha)
+    rw [List.findSome?_eq_none_iff.2 hn]
+  | some e₁ =>
+    obtain ⟨a, ha, hca⟩ := List.exists_of_findSome?_eq_some h1
+    cases h2 : l₂.findSome? check with
+    | none =>
+      have := List.findSome?_eq_none_iff.1 h2 a (h.mem_iff.1 ha)
+      simp [hca] at this
+    | some e₂ =>
+      obtain ⟨b, hb, hcb⟩ := List.exists_of_findSome?_eq_some h2
+      have := same a ha b (h.mem_iff.2 hb) e₁ e₂ hca hcb
+      simp [this]
+
 /-- why a site is order independent -/
 inductive Shape where
   /-- collect into a Vec, then `sort` with an antisymmetric order / injective key (`sort_perm_invariant`) -/
@@ -114,6 +153,9 @@ inductive Shape where
   | fixpoint
   /-- the ordered result is stored but no consumer reads its order -/
   | unobserved
+  /-- the body only checks its elements (`assert!`, `unreachable!`): whether a check fails does not depend on
+      the order (`firstFailure_ok_perm_invariant`); what a failing check reports is reviewed in `effects` -/
+  | checksOnly
   /-- not a hash iteration at all: the loop walks a `Vec` stored as a map *value*, in push order -/
   | mapValueVec
   /-- this very body is transcribed into a Lean model and its order independence is a theorem about the model -/
@@ -148,7 +190,7 @@ def classified : List Reviewed := [
   ⟨"ir/src/usage_analysis.rs", "recurse", "method:self.0.keys", "791d50d5c7b4",
     .fixpoint, "", "keys collected once, in hash order, for the fixpoint loop above"⟩,
   ⟨"msl/src/generator.rs", "analyse_globals", "for:global_usage.get_usage_for_function(id)|sorts:required_globals", "ccd2250ffa8e",
-    .collectSort, "panic!(\"Non-type template parameter is DispatchMesh\") has a constant message and guards a typer invariant",
+    .collectSort, "panic!(\"Non-type template parameter is DispatchMesh\") has a constant message and guards a typer invariant; the two assert!s guard `intrinsic globals have no mode` / `DispatchMesh has one template argument` with constant texts",
     "required_globals.sort() follows (derived Ord; C02.required_order_independent); called_functions is a set"⟩,
   ⟨"msl/src/generator/intrinsic_helpers.rs", "generate_helpers", "for:objects|from:required_helpers|sorted-before", "cc1c54166cc5",
     .collectSort, "`?` leaves at the first failing helper of a SORTED walk: objects.sort_by(key) precedes the loop and `ordered.sort()` the inner one",
@@ -162,24 +204,25 @@ def classified : List Reviewed := [
     .insertOnly, "is_some() tests the result of insert under distinct names (keys of the source map): never true; the panic message is a constant",
     "re-insertion of the gathered symbols under their distinct names, one-element vectors"⟩,
   ⟨"typer/src/typer/scopes.rs", "build_function_template_signature", "for:self.scopes[old_scope_id].symbols.values()", "43432eb69114",
-    .commutativeFold, "", "assertions only (conjunction)"⟩,
+    .checksOnly, "five assert!(!matches!(..)) per symbol: they guard `a template function scope holds only template parameters` (the scope is filled by the template parameter list alone); were two DIFFERENT ones violated, the assertion text quoted by the panic would follow the hash order — no source text reaches that state",
+    "assertions only (firstFailure_ok_perm_invariant)"⟩,
   ⟨"typer/src/typer/scopes.rs", "build_function_template_signature", "method:self.scopes[old_scope_id].symbols.values", "eb511d922cc8",
-    .commutativeFold, "", "the same loop, recorded by its method form"⟩,
+    .checksOnly, "the same loop, recorded by its method form", "assertions only (firstFailure_ok_perm_invariant)"⟩,
   ⟨"typer/src/typer/scopes.rs", "build_function_template_signature", "for:symbols", "5071b0823b50",
-    .mapValueVec, "", "`symbols` is the Vec stored as a map value; assertions only"⟩,
+    .mapValueVec, "inner loop of the assertion loop above", "`symbols` is the Vec stored as a map value; assertions only"⟩,
   ⟨"typer/src/typer/scopes.rs", "build_function_template_signature", "for:symbols", "7b840f1e8977",
     .mapValueVec, "inner loop of the gathering loop above (one symbol per template parameter name)", "`symbols` is the Vec stored as a map value"⟩,
   ⟨"typer/src/typer/scopes.rs", "end_enum", "for:enum_symbols", "838b04e3655d",
     .modelled, "unreachable!() has a constant message; it guards `only enum values live in an enum scope`",
     "drains the map into enum_values in hash order: this order IS the permutation parameter `vals` of Model.EnumRange.endEnum"⟩,
   ⟨"typer/src/typer/scopes.rs", "end_enum", "for:&enum_values|from:enum_symbols", "af736ce73b79",
-    .modelled, "", "range loop = Model.EnumRange.gather (min/max fold; the `_ => panic!` arm is modelled with its message): end_enum_type_or_error_order_independent"⟩,
+    .modelled, "the `_ => panic!` arm is part of the model (its message quotes the offending constant)", "range loop = Model.EnumRange.gather (min/max fold; the `_ => panic!` arm is modelled with its message): end_enum_type_or_error_order_independent"⟩,
   ⟨"typer/src/typer/scopes.rs", "end_enum", "for:&enum_values|from:enum_symbols", "1d70641d30f5",
-    .modelled, "", "conversion loop = Model.EnumRange.convertStep (update_underlying_type under distinct value ids): end_enum_order_independent"⟩,
+    .modelled, "panic! / unreachable!() arms are part of the model", "conversion loop = Model.EnumRange.convertStep (update_underlying_type under distinct value ids): end_enum_order_independent"⟩,
   ⟨"typer/src/typer/scopes.rs", "end_enum", "for:&enum_values|from:enum_symbols", "fd74accc2485",
-    .modelled, "", "promotion loop = Model.EnumRange.promoteStep (per-name update + replacement count): end_enum_order_independent"⟩,
+    .modelled, "unwrap() and assert_eq!(symbols.len(), 1) are part of the model (with their messages)", "promotion loop = Model.EnumRange.promoteStep (per-name update + replacement count): end_enum_order_independent"⟩,
   ⟨"typer/src/typer/scopes.rs", "end_enum", "for:enum_values|from:enum_symbols", "45774f126f3f",
-    .modelled, "", "reinsertion = Model.EnumRange.reinsertStep (distinct names; constant panic message): end_enum_order_independent"⟩,
+    .modelled, "is_some() tests the result of insert; the panic message is a constant: both in the model", "reinsertion = Model.EnumRange.reinsertStep (distinct names; constant panic message): end_enum_order_independent"⟩,
   ⟨"typer/src/typer/scopes.rs", "end_enum", "for:symbols", "7ccfa991b261",
     .mapValueVec, "", "inner loop of the promotion loop over the one-element Vec of the name"⟩,
   ⟨"typer/src/typer/scopes.rs", "extract_locals", "method:self.variables.iter", "cd13c9cc2951",
@@ -190,7 +233,7 @@ def classified : List Reviewed := [
     .mapValueVec, "first non-function symbol of a Vec in push (= declaration) order; overloads are collected in that order (the candidate lists of ambiguity diagnostics)",
     "`symbols` is the Vec stored as a map value"⟩,
   ⟨"typer/src/typer/scopes.rs", "walk_into_scopes", "for:symbols", "98fd69e2a092",
-    .mapValueVec, "", "`symbols` is the Vec stored as a map value"⟩]
+    .mapValueVec, "assert_eq!(current, step_start): at most one scope symbol per name, walked in push order", "`symbols` is the Vec stored as a map value"⟩]
 
 open RsslVerif.Gen.HashSites in
 /-- the review of a site of the regenerated inventory: same file, function, traversal AND body fingerprint -/
@@ -349,6 +392,13 @@ example : (match endEnum 5 (fun _ => none)
     | .error _ => false) = true := by decide
 
 end EndEnum
+
+/-! Non-vacuity: a check-only loop with two failing elements that report the same constant. -/
+example : firstFailure (fun n : Nat => if n > 2 then some "duplicate" else none) [1, 5, 2, 7] =
+    firstFailure (fun n : Nat => if n > 2 then some "duplicate" else none) [7, 2, 1, 5] :=
+  firstFailure_perm_invariant _ (by decide) (by
+    intro a _ b _ e₁ e₂ h₁ h₂
+    split at h₁ <;> split at h₂ <;> simp_all)
 
 /-! Non-vacuity: two different iteration orders of one set, one result. -/
 example : collectSort (fun a b => decide (a ≤ b)) [3, 1, 2] = collectSort (fun a b => decide (a ≤ b)) [2, 3, 1] :=
